@@ -229,6 +229,26 @@ func receivesFrom(fn *ssa.Function, cell ssa.Value) bool {
 	return false
 }
 
+// goDrains: the go statement starts a function that receives from the channel identified by cell (captured, or passed as argument).
+func goDrains(x *ssa.Go, cell ssa.Value) bool {
+	if mc, ok := x.Call.Value.(*ssa.MakeClosure); ok {
+		if f, ok := mc.Fn.(*ssa.Function); ok && receivesFrom(f, cell) {
+			return true
+		}
+	}
+	if sc := x.Call.StaticCallee(); sc != nil && len(sc.Blocks) > 0 {
+		if receivesFrom(sc, cell) {
+			return true
+		}
+		for i, a := range x.Call.Args {
+			if i < len(sc.Params) && (rootCell(a) == cell || canon(a) == canon(cell)) && receivesFrom(sc, sc.Params[i]) {
+				return true
+			}
+		}
+	}
+	return false
+}
+
 // startsDrainer: calling fn starts a goroutine that keeps receiving from the channel cell (directly or through closures it calls).
 func startsDrainer(fn *ssa.Function, cell ssa.Value, depth int) bool {
 	if fn == nil || depth > 3 {
@@ -238,12 +258,7 @@ func startsDrainer(fn *ssa.Function, cell ssa.Value, depth int) bool {
 		for _, ins := range b.Instrs {
 			switch x := ins.(type) {
 			case *ssa.Go:
-				if mc, ok := x.Call.Value.(*ssa.MakeClosure); ok {
-					if f, ok := mc.Fn.(*ssa.Function); ok && receivesFrom(f, cell) {
-						return true
-					}
-				}
-				if sc := x.Call.StaticCallee(); sc != nil && receivesFrom(sc, cell) {
+				if goDrains(x, cell) {
 					return true
 				}
 			}
@@ -281,10 +296,8 @@ var ruleF7 = &Rule{
 				isDrainCall := func(ins ssa.Instruction) bool {
 					switch x := ins.(type) {
 					case *ssa.Go:
-						if mc, ok := x.Call.Value.(*ssa.MakeClosure); ok {
-							if f, ok := mc.Fn.(*ssa.Function); ok && receivesFrom(f, cell) {
-								return true
-							}
+						if goDrains(x, cell) {
+							return true
 						}
 					case *ssa.Call:
 						var callee *ssa.Function
@@ -310,6 +323,14 @@ var ruleF7 = &Rule{
 						}
 						if callee != nil && startsDrainer(callee, cell, 0) {
 							return true
+						}
+						// the channel is handed to a helper as an argument
+						if callee != nil && len(callee.Blocks) > 0 {
+							for i, a := range x.Common().Args {
+								if i < len(callee.Params) && (rootCell(a) == cell || canon(a) == canon(cell)) && startsDrainer(callee, callee.Params[i], 0) {
+									return true
+								}
+							}
 						}
 					}
 					return false
